@@ -4,9 +4,9 @@
    [world0 s] = a fresh client facing ANY server state s (reply script of any length, any capability lines, any
    handshake oracle). *)
 From Coq Require Import String.
-From Verif Require Import Dial.
+From Verif Require Import Dial DialCfg.
 From VerifGen Require Import Gen.
-From VerifProofs Require Import DialProofs DialTable.
+From VerifProofs Require Import DialProofs DialPassword DialTable DialCfgProofs.
 
 (* T1: defaults of NewClient re-read from the source: TLSMandatory; tls.Config{ServerName: host}, certificate
    verification not switched off; the 13 SMTPAuthType values *)
@@ -65,17 +65,34 @@ Theorem C07_other_mechs_never_password : forall a,
 Proof. exact other_mechs_never_pass. Qed.
 Print Assumptions C07_other_mechs_never_password.
 
-(* password confinement over the COMPLETE finite configuration table of the property's quantifier (T2):
-   {mandatory, opportunistic, none, implicit} x 13 auth types x {localhost, other host} x {STARTTLS not advertised,
-   advertised with reply 220 + handshake ok / failed / stalled, reply 4yz / 5yz / garbage} x {AUTH accepted, rejected}
-   x 13 advertised AUTH lists (18 928 rows): on every row no cleartext command reveals the password unless the type is
-   *-NOENC or the host is a localhost name; mandatory rows only show EHLO/HELO/STARTTLS/QUIT in clear; implicit rows
-   nothing; auto-discovery rows no AUTH PLAIN / AUTH LOGIN in clear; no row hangs or leaves a connection open after an
-   error.  PARTIAL with respect to "any advertised AUTH list": the lists are the 13-element family (the three theorems
-   above hold for all lists). *)
-Theorem C07_password_confined_partial : forall row, In row tab_rows -> row_ok row = true.
+(* password confinement, the complete dial: for EVERY configuration without a caller-supplied mechanism (any TLS
+   policy, implicit TLS or not, any auth type string incl. the 13 SMTPAuthType values and AUTODISCOVER, any host, any
+   state of the three repairs) and EVERY server (reply script of any length, ANY advertised capability / AUTH lists,
+   any handshake outcome, muted or not): a command that reveals the password — the PLAIN initial response, the second
+   answer of LOGIN ([reveals_password]) — is among the commands sent outside TLS only if the auth type is a *-NOENC type
+   or the host is a localhost name.  Invariant: "no password-revealing command emitted while tls = false". *)
+Theorem C07_password_confined : forall fuel cfg (s : srv) v,
+  c_custom cfg = None ->
+  In v (clear_cmds (w_trace (snd (run (dial fuel cfg) (world0 s))))) ->
+  reveals_password v = true ->
+  noenc_type (c_auth cfg) = true \/ is_localhost (c_host cfg) = true.
+Proof. exact C07_password_confined_l. Qed.
+Print Assumptions C07_password_confined.
+
+Theorem C07_password_confined_dial_and_send : forall fuel cfg msgs (s : srv) v,
+  c_custom cfg = None ->
+  In v (clear_cmds (w_trace (snd (run (dial_and_send fuel cfg msgs) (world0 s))))) ->
+  reveals_password v = true ->
+  noenc_type (c_auth cfg) = true \/ is_localhost (c_host cfg) = true.
+Proof. exact C07_password_confined_send_l. Qed.
+Print Assumptions C07_password_confined_dial_and_send.
+
+(* cross-check (T2 inside Coq): the model's decision on the complete finite configuration table of the property's
+   quantifier satisfies all of the above at once (18 928 rows, vm_compute); the harness dials the same kind of table
+   against the real client and compares every row with the extracted model *)
+Theorem C07_table_cross_check : forall row, In row tab_rows -> row_ok row = true.
 Proof. exact C07_table_l. Qed.
-Print Assumptions C07_password_confined_partial.
+Print Assumptions C07_table_cross_check.
 
 Theorem C07_table_size : N.of_nat (length tab_rows) = 18928%N.
 Proof. exact table_rows_count. Qed.
@@ -84,14 +101,91 @@ Print Assumptions C07_table_size.
 (* non-vacuity *)
 Example C07_example_mandatory_plain :
   let s := srv0 [] None [bs "STARTTLS"; bs "AUTH PLAIN LOGIN"] [bs "AUTH PLAIN LOGIN"] HsOk in
-  let cfg := mkCfg Mandatory false Gen.smtp_auth_plain None (bs "mail.verif.test") false true true true true in
+  let cfg := mkCfg Mandatory false Gen.smtp_auth_plain None (bs "mail.verif.test") false true true true true false in
   clear_cmds (w_trace (snd (run (dial 8 cfg) (world0 s)))) = [VStartTLS; VEhlo] /\
   last_cmd (w_trace (snd (run (dial 8 cfg) (world0 s)))) = Some (VAuth (bs "PLAIN") (Some TPass)).
 Proof. vm_compute. auto. Qed.
 
 Example C07_example_notls_plain_refused :
   let s := srv0 [] None [bs "AUTH PLAIN LOGIN"] [] HsOk in
-  let cfg := mkCfg NoTLS false Gen.smtp_auth_plain None (bs "mail.verif.test") false true true true true in
+  let cfg := mkCfg NoTLS false Gen.smtp_auth_plain None (bs "mail.verif.test") false true true true true false in
   fst (run (dial 8 cfg) (world0 s)) = Err EUnenc /\
   clear_cmds (w_trace (snd (run (dial 8 cfg) (world0 s)))) = [VQuit; VEhlo].
 Proof. vm_compute. auto. Qed.
+
+(* ---- the configuration path: which policy / ssl flag is in force when the dial starts ---- *)
+
+(* T1: every policy / ssl setter and option of client.go assigns its field as its last statement without an earlier
+   return; the port and fallback-port side effects sit under "if c.port == DefaultPort" *)
+Theorem C07_source_config_setters : Gen.cfg_setters_unconditional = true.
+Proof. exact (eq_refl true). Qed.
+Print Assumptions C07_source_config_setters.
+
+(* for EVERY sequence of configuration calls (WithTLSPolicy / SetTLSPolicy, WithTLSPortPolicy / SetTLSPortPolicy,
+   WithSSL / SetSSL, WithSSLPort / SetSSLPort, WithPort) the policy in force is the one of the last policy-setting
+   call, whatever port / ssl calls precede or follow; likewise the ssl flag *)
+Theorem C07_config_policy_last : forall l, cc_policy (apply_cfg l) = last_of policy_of_call default_policy l.
+Proof. exact cfg_policy_last_l. Qed.
+Print Assumptions C07_config_policy_last.
+
+Theorem C07_config_ssl_last : forall l, cc_ssl (apply_cfg l) = last_of ssl_of_call false l.
+Proof. exact cfg_ssl_last_l. Qed.
+Print Assumptions C07_config_ssl_last.
+
+Theorem C07_config_policy_port_independent : forall l,
+  cc_policy (apply_cfg l) =
+  cc_policy (apply_cfg (filter (fun c => match policy_of_call c with Some _ => true | None => false end) l)).
+Proof. exact cfg_policy_port_independent_l. Qed.
+Print Assumptions C07_config_policy_port_independent.
+
+(* ... and C07_mandatory / C07_implicit hold for the client such a path produces *)
+Theorem C07_mandatory_config_path : forall l auth custom host nonoop fxc fxq fxa fxs fuel msgs (s : srv) v,
+  last_of policy_of_call default_policy l = Mandatory ->
+  last_of ssl_of_call false l = false ->
+  In v (clear_cmds (w_trace (snd (run (dial_and_send fuel (cfg_of l auth custom host nonoop fxc fxq fxa fxs) msgs) (world0 s))))) ->
+  handshake_free_verb v = true.
+Proof. exact C07_mandatory_config_path_l. Qed.
+Print Assumptions C07_mandatory_config_path.
+
+Theorem C07_implicit_config_path : forall l auth custom host nonoop fxc fxq fxa fxs fuel msgs (s : srv),
+  last_of ssl_of_call false l = true ->
+  clear_cmds (w_trace (snd (run (dial_and_send fuel (cfg_of l auth custom host nonoop fxc fxq fxa fxs) msgs) (world0 s)))) = [].
+Proof. exact C07_implicit_config_path_l. Qed.
+Print Assumptions C07_implicit_config_path.
+
+Example C07_example_config_path :
+  let l := [CPort 2525; CTLSPortPolicy NoTLS; CSSLPort false true; CTLSPortPolicy Mandatory] in
+  apply_cfg l = mkCC Mandatory 2525 0 false /\
+  apply_cfg [CTLSPortPolicy Opportunistic] = mkCC Opportunistic 587 25 false /\
+  apply_cfg [CSSLPort true true; CTLSPolicy Mandatory] = mkCC Mandatory 465 25 true.
+Proof. vm_compute. auto. Qed.
+
+(* the hypotheses of C07_password_confined are met by non-trivial runs: PLAIN after a completed STARTTLS handshake puts
+   the password on the wire — inside TLS; the LOGIN exchange likewise (second answer) *)
+Example C07_example_password_inside_tls :
+  let s := srv0 [] None [bs "STARTTLS"; bs "AUTH PLAIN LOGIN"] [bs "AUTH PLAIN LOGIN"] HsOk in
+  let cfg := mkCfg Opportunistic false Gen.smtp_auth_login None (bs "mail.verif.test") false true true true true false in
+  c_custom cfg = None /\ noenc_type (c_auth cfg) = false /\ is_localhost (c_host cfg) = false /\
+  fst (run (dial 10 cfg) (world0 s)) = Ok tt /\
+  In (ECmd (VResp TPass) false) (w_trace (snd (run (dial 10 cfg) (world0 s)))) /\
+  existsb reveals_password (clear_cmds (w_trace (snd (run (dial 10 cfg) (world0 s))))) = false.
+Proof. vm_compute. intuition. Qed.
+
+(* the exemptions are real: with a *-NOENC type, or towards a localhost name, the password does go out in clear *)
+Example C07_exemption_noenc_refuted :
+  exists cfg s v, c_custom cfg = None /\ is_localhost (c_host cfg) = false /\
+    In v (clear_cmds (w_trace (snd (run (dial 10 cfg) (world0 s))))) /\ reveals_password v = true.
+Proof.
+  exists (mkCfg NoTLS false Gen.smtp_auth_plain_noenc None (bs "mail.verif.test") false true true true true false).
+  exists (srv0 [] None [bs "AUTH PLAIN LOGIN"] [] HsOk).
+  exists (VAuth (bs "PLAIN") (Some TPass)). vm_compute. intuition.
+Qed.
+
+Example C07_exemption_localhost_refuted :
+  exists cfg s v, c_custom cfg = None /\ noenc_type (c_auth cfg) = false /\
+    In v (clear_cmds (w_trace (snd (run (dial 10 cfg) (world0 s))))) /\ reveals_password v = true.
+Proof.
+  exists (mkCfg NoTLS false Gen.smtp_auth_login None (bs "localhost") false true true true true false).
+  exists (srv0 [] None [bs "AUTH PLAIN LOGIN"] [] HsOk).
+  exists (VResp TPass). vm_compute. intuition.
+Qed.
